@@ -38,6 +38,16 @@ pub fn run_prop(prop: &'static str, sem: hist::Sem, seed: u64, run: u64) -> Repo
     if scn.events.iter().any(|e| matches!(e, Ev::RenameLoop { .. })) {
         probes.push("rename_loop".into());
     }
+    if scn.events.iter().any(|e| matches!(e, Ev::Open { path, .. } if path == "oal.toml")) {
+        probes.push("client_edits_the_configuration_file".into());
+    }
+    for p in plan.programs.iter() {
+        for f in ["qualifier_spelled_like_a_member", "qualifier_used_by_two_imports", "unqualified_imports_share_a_name"] {
+            if p.features.contains(f) {
+                probes.push(format!("program_{f}"));
+            }
+        }
+    }
     probes.sort();
     probes.dedup();
     let violation = out.violation.as_ref().map(|v| {
@@ -64,6 +74,7 @@ pub fn run_prop(prop: &'static str, sem: hist::Sem, seed: u64, run: u64) -> Repo
             Ev::Save { path } => json!({"save": path}),
             Ev::Idle => json!("idle-timer-fires"),
             Ev::Burst { n } => json!({"burst_of_up_to": n}),
+            Ev::Noise { kind } => json!({"notification_without_a_handler": kind}),
             Ev::Request { kind, path, pos, .. } => json!({"request": format!("{kind:?}"), "path": path, "pos": pos}),
             Ev::RenameLoop { path, pos, new_name } => json!({"rename_loop": path, "pos": pos, "new_name": new_name}),
             Ev::Folder { add, b } => json!({"folder_added": add, "second_folder": b}),
